@@ -519,3 +519,34 @@ def build_unchecked(tier, seed):
     add_predicate(d, "!x.is_empty()", "closure")
     d.derives = ["Debug", "Clone", "PartialEq", "Eq", "PartialOrd", "Ord", "Hash", "AsRef", "Deref", "Borrow", "Into", "TryFrom", "IntoIterator"]
     return b.decls
+
+
+def build_homonyms(tier, seed):
+    """Several declarations that share one type name (each in its own module) but differ in their rules, in every family: any state the
+    generated code keeps per *name* (a cache, a registry, a static shared through the parent scope) would leak rules from one into the other.
+    Declared in an order that interleaves the families; the monitors visit them one after another in one process."""
+    b = Builder("h", tier, seed)
+    tags = ["C01", "C03", "C06", "C07", "C11", "C16"]
+    for rnd in range(3):
+        for name in ("Code", "Value", "Id"):
+            d = b.new(inner_string(), tags=list(tags), type_name=name)
+            d.sans.append(San(["trim", "lowercase", "uppercase"][rnd]))
+            if rnd == 1:
+                d.sans.append(San("trim"))
+            pat = ["^[a-z]{2,4}$", "^[0-9]+$", "^[A-Z][A-Z0-9]*$"][rnd]
+            d.vals.append(Vld("regex", rust_str(pat), pat))
+            d.vals.append(Vld("len_char_max", str(4 + 3 * rnd), 4 + 3 * rnd))
+            for pr in (["ab", "abcd", "abcde", " AB ", "a1"], ["12", "1234567", "12345678", " 42 ", "4a"], ["A1", "AB12CD", "ABCDEFGHIJ", "ABCDEFGHIJK", " zz9 ", "1A"])[rnd]:
+                d.tags.append("probe=" + pr)
+            d.derives = ["Debug", "Clone", "PartialEq", "TryFrom", "FromStr", "Display", "AsRef"]
+            d = b.new(inner_int("i32"), tags=list(tags), type_name=name)
+            d.vals.append(int_bound(["greater", "greater_or_equal", "less"][rnd], "i32", [10, -5, 0][rnd], "lit", d))
+            if rnd == 1:
+                add_with_sanitizer(d, "x.wrapping_abs()", "closure")
+            d.derives = ["Debug", "Clone", "Copy", "PartialEq", "TryFrom", "FromStr", "Display", "AsRef"]
+            d = b.new(inner_float("f64"), tags=list(tags), type_name=name)
+            d.vals.append(float_bound(["less", "greater", "less_or_equal"][rnd], "f64", ["2.5", "-1.5", "64.0"][rnd], None, [Fraction(5, 2), Fraction(-3, 2), Fraction(64)][rnd], d))
+            if rnd == 2:
+                d.vals.insert(0, Vld("finite"))
+            d.derives = ["Debug", "Clone", "Copy", "PartialEq", "TryFrom", "FromStr", "Display", "AsRef"]
+    return b.decls
